@@ -29,7 +29,7 @@ def rnd_sorted(rng, ty, n, desc, strict=False):
 
 class MergeSpec(KernelSpec):
     """merge::<T,C>(left, right, limit): stable merge of two sorted runs, truncated to `limit`"""
-    fn_pattern = r"merge::merge"
+    fn_path = "engine::operators::merge::merge"
     diff_cases = 4
 
     def instantiations(self, tier):
@@ -126,7 +126,7 @@ class MergeSpec(KernelSpec):
 
 class MergeKeepSpec(KernelSpec):
     """merge_keep(ops, left, right): carry a payload column through the permutation recorded by merge"""
-    fn_pattern = r"merge_keep::merge_keep"
+    fn_path = "engine::operators::merge_keep::merge_keep"
     diff_cases = 3
 
     def instantiations(self, tier):
@@ -181,3 +181,343 @@ class MergeKeepSpec(KernelSpec):
 
     def parse_native(self, inst, shape, toks):
         return VecObj(parse_ints(toks[0], inst["T"]))
+
+
+MERGEOPS = ["TakeLeft", "TakeRight", "MergeRight"]
+
+
+def mop(v):
+    return Agg("enum", [], name="MergeOp", variant=MERGEOPS[v])
+
+
+def mop_index(x):
+    if isinstance(x, Agg):
+        return MERGEOPS.index(x.variant)
+    return x.v
+
+
+class MergeDedupSpec(KernelSpec):
+    """merge_deduplicate::<T,C>(l, r) on strictly increasing group keys: strictly increasing union + MergeOps whose
+    replay (TakeLeft/TakeRight copy, MergeRight = 'right key equals the last output key') reproduces the union."""
+    fn_path = "engine::operators::merge_deduplicate::merge_deduplicate"
+    diff_cases = 4
+
+    def instantiations(self, tier):
+        kt = KEY_TYPES_QUICK if tier == "quick" else KEY_TYPES_THOROUGH
+        return [{"T": t, "C": c, "nat": f"merge_dedup_{t}_{s}"} for t, c, s in kt]
+
+    def shapes(self, tier, inst):
+        if tier == "quick":
+            return [(0, 0), (0, 2), (2, 0), (1, 1), (2, 2), (1, 3)]
+        return [(a, b) for a in range(0, 5) for b in range(0, 5) if a + b <= 7 and (inst["T"] == "i64" or a + b <= 5)]
+
+    def sym_inputs(self, inst, shape):
+        n, m = shape
+        ty = inst["T"]
+        order = Order(ty, inst["C"] == "CmpGreaterThan")
+        l = [sym(ty, f"l{i}") for i in range(n)]
+        r = [sym(ty, f"r{i}") for i in range(m)]
+        return {"l": l, "r": r}, sorted_pre(order, l, strict=True) + sorted_pre(order, r, strict=True)
+
+    def make_args(self, inst, shape, inp):
+        return [slice_arg(inp["l"]), slice_arg(inp["r"])]
+
+    def post(self, inst, shape, inp, value, state=None):
+        order = Order(inst["T"], inst["C"] == "CmpGreaterThan")
+        l, r = inp["l"], inp["r"]
+        res = elems_of(value.fields[0])
+        ops = [mop_index(o) for o in elems_of(value.fields[1])]
+        n, m = len(l), len(r)
+        conds = []
+        i = j = 0
+        k = -1
+        ok = True
+        for op in ops:
+            if op == 0:
+                k += 1
+                if i >= n or k >= len(res):
+                    ok = False
+                    break
+                conds.append((f"TakeLeft copies left[{i}]", binop("Eq", res[k], l[i])))
+                i += 1
+            elif op == 1:
+                k += 1
+                if j >= m or k >= len(res):
+                    ok = False
+                    break
+                conds.append((f"TakeRight copies right[{j}]", binop("Eq", res[k], r[j])))
+                j += 1
+            else:
+                if j >= m or k < 0:
+                    ok = False
+                    break
+                conds.append((f"MergeRight only when right[{j}] equals the last output key", binop("Eq", res[k], r[j])))
+                j += 1
+        conds.append(("ops consume both inputs completely and produce every output row", B(ok and i == n and j == m and k + 1 == len(res))))
+        for a, b in zip(res, res[1:]):
+            conds.append(("group keys strictly increasing (each distinct key exactly once)", order.before(a, b)))
+        return conds
+
+    def random_inputs(self, rng, inst, shape):
+        n, m = shape
+        desc = inst["C"] == "CmpGreaterThan"
+        return {"l": rnd_sorted(rng, inst["T"], n, desc, strict=True), "r": rnd_sorted(rng, inst["T"], m, desc, strict=True)}
+
+    def native(self, inst, shape, inp):
+        if inp is None:
+            return (inst["nat"], [])
+        return (inst["nat"], [fmt_ints(inp["l"]), fmt_ints(inp["r"])])
+
+    def parse_native(self, inst, shape, toks):
+        return Agg("tuple", [VecObj(parse_ints(toks[0], inst["T"])), VecObj([mop(int(x)) for x in toks[1].strip("[]").split(",") if x])])
+
+    def native_view(self, inst, shape, v, st):
+        return v
+
+
+def valid_ops_strings(maxlen):
+    """ops strings merge_deduplicate can emit: MergeRight only directly after a Take*, never two in a row"""
+    import itertools
+    out = []
+    for k in range(0, maxlen + 1):
+        for ops in itertools.product((0, 1, 2), repeat=k):
+            good = True
+            for idx, o in enumerate(ops):
+                if o == 2 and (idx == 0 or ops[idx - 1] == 2):
+                    good = False
+            if good:
+                out.append(ops)
+    return out
+
+
+AGGS = [("SumI64", 0), ("Count", 2), ("MaxI64", 3), ("MinI64", 5)]
+
+
+class MergeAggregateSpec(KernelSpec):
+    """merge_aggregate(ops, accL, accR, agg): per output group the combine of the partial aggregates ops says belong to it"""
+    fn_path = "engine::operators::merge_aggregate::merge_aggregate"
+    diff_cases = 2
+
+    def instantiations(self, tier):
+        return [{"T": "i64", "agg": a, "nat": "merge_aggregate_i64"} for a, _ in AGGS]
+
+    def shapes(self, tier, inst):
+        return valid_ops_strings(3 if tier == "quick" else 5)
+
+    def _counts(self, shape):
+        return sum(1 for o in shape if o == 0), sum(1 for o in shape if o != 0)
+
+    def sym_inputs(self, inst, shape):
+        a, b = self._counts(shape)
+        l = [sym("i64", f"l{i}") for i in range(a)]
+        r = [sym("i64", f"r{i}") for i in range(b)]
+        pre = []
+        if inst["agg"] == "Count":
+            # counts are non-negative row counts (0 <= c < 2^40): the kernel adds them unchecked
+            for x in l + r:
+                pre += [x.v >= 0, x.v < (1 << 40)]
+        return {"l": l, "r": r}, pre
+
+    def make_args(self, inst, shape, inp):
+        return [slice_arg([mop(o) for o in shape]), slice_arg(inp["l"]), slice_arg(inp["r"]),
+                Agg("enum", [], name="Aggregator", variant=inst["agg"])]
+
+    def _ref(self, inst, shape, inp):
+        """reference: list of (value I, overflow I(bool)) per output group; NULL = i64::MAX is neutral"""
+        NULL = I("i64", 2**63 - 1)
+        l, r = inp["l"], inp["r"]
+        if not l:
+            return [(x, B(False)) for x in r], None
+        if not r:
+            return [(x, B(False)) for x in l], None
+        out = []
+        i = j = 0
+        for o in shape:
+            if o == 0:
+                out.append((l[i], B(False)))
+                i += 1
+            elif o == 1:
+                out.append((r[j], B(False)))
+                j += 1
+            else:
+                cur, ovf = out[-1]
+                x = r[j]
+                j += 1
+                an, bn = binop("Eq", cur, NULL), binop("Eq", x, NULL)
+                agg = inst["agg"]
+                if agg in ("SumI64", "Count"):
+                    s = binop("AddWithOverflow", cur, x)
+                    comb, o2 = s.fields
+                    if agg == "Count":
+                        o2 = B(False)
+                elif agg == "MaxI64":
+                    comb, o2 = ite(binop("Ge", cur, x), cur, x), B(False)
+                else:
+                    comb, o2 = ite(binop("Le", cur, x), cur, x), B(False)
+                val = ite(an, x, ite(bn, cur, comb))
+                o2 = band(o2, bnot(an), bnot(bn))
+                out[-1] = (val, bor(ovf, o2))
+        return out, None
+
+    def post(self, inst, shape, inp, value, state=None):
+        ref, _ = self._ref(inst, shape, inp)
+        anyovf = bor(*[o for _, o in ref]) if ref else B(False)
+        if value.variant == "Err":
+            return [("Err only when a partial sum overflows", anyovf)]
+        out = elems_of(value.fields[0])
+        conds = [("Ok only when no partial sum overflows", bnot(anyovf)), ("one aggregate per output group", B(len(out) == len(ref)))]
+        if len(out) == len(ref):
+            for k, (v, _) in enumerate(ref):
+                conds.append((f"aggregate of group {k} == combine of its partials", binop("Eq", out[k], v)))
+        return conds
+
+    def random_inputs(self, rng, inst, shape):
+        if rng.random() < 0.7 and len(shape) > 1:
+            return None
+        a, b = self._counts(shape)
+        small = inst["agg"] == "Count"
+        mk = lambda: I("i64", abs(rnd_int(rng, "i64", small=True)) if small else rnd_int(rng, "i64"))
+        return {"l": [mk() for _ in range(a)], "r": [mk() for _ in range(b)]}
+
+    def native(self, inst, shape, inp):
+        if inp is None:
+            return (inst["nat"], [])
+        return (inst["nat"], ["[" + ",".join(str(o) for o in shape) + "]", fmt_ints(inp["l"]), fmt_ints(inp["r"]), dict(AGGS)[inst["agg"]]])
+
+    def parse_native(self, inst, shape, toks):
+        if toks[0] == "err":
+            return Agg("enum", [Agg("enum", [], name="QueryError", variant=toks[1])], name="Result", variant="Err")
+        return Agg("enum", [VecObj(parse_ints(toks[1], "i64"))], name="Result", variant="Ok")
+
+    def native_view(self, inst, shape, v, st):
+        if v.variant == "Err":
+            e = v.fields[0]
+            return Agg("enum", [Agg("enum", [], name="QueryError", variant=e.variant)], name="Result", variant="Err")
+        return v
+
+
+class MergeDropSpec(KernelSpec):
+    """merge_drop(ops, l, r): secondary grouping columns follow the same MergeOps (the merged right row is dropped)"""
+    fn_path = "engine::operators::merge_drop::merge_drop"
+    diff_cases = 2
+
+    def instantiations(self, tier):
+        return [{"T": "i64", "nat": "merge_drop_i64"}]
+
+    def shapes(self, tier, inst):
+        return valid_ops_strings(3 if tier == "quick" else 5)
+
+    def sym_inputs(self, inst, shape):
+        a = sum(1 for o in shape if o == 0)
+        b = len(shape) - a
+        return {"l": [sym("i64", f"l{i}") for i in range(a)], "r": [sym("i64", f"r{i}") for i in range(b)]}, []
+
+    def make_args(self, inst, shape, inp):
+        return [slice_arg([mop(o) for o in shape]), slice_arg(inp["l"]), slice_arg(inp["r"])]
+
+    def post(self, inst, shape, inp, value, state=None):
+        out = elems_of(value)
+        want = []
+        i = j = 0
+        for o in shape:
+            if o == 0:
+                want.append(inp["l"][i])
+                i += 1
+            elif o == 1:
+                want.append(inp["r"][j])
+                j += 1
+            else:
+                j += 1
+        conds = [("one value per output group", B(len(out) == len(want)))]
+        if len(out) == len(want):
+            for k, w in enumerate(want):
+                conds.append((f"group {k} keeps the value of the row that created it", binop("Eq", out[k], w)))
+        return conds
+
+    def random_inputs(self, rng, inst, shape):
+        if rng.random() < 0.7 and len(shape) > 1:
+            return None
+        a = sum(1 for o in shape if o == 0)
+        b = len(shape) - a
+        return {"l": [I("i64", rnd_int(rng, "i64")) for _ in range(a)], "r": [I("i64", rnd_int(rng, "i64")) for _ in range(b)]}
+
+    def native(self, inst, shape, inp):
+        if inp is None:
+            return (inst["nat"], [])
+        return (inst["nat"], ["[" + ",".join(str(o) for o in shape) + "]", fmt_ints(inp["l"]), fmt_ints(inp["r"])])
+
+    def parse_native(self, inst, shape, toks):
+        return VecObj(parse_ints(toks[0], "i64"))
+
+
+class MergeKeepNullableSpec(KernelSpec):
+    """merge_keep_nullable: payload values and their NULL bits follow the interleaving"""
+    fn_path = "engine::operators::merge_keep::merge_keep_nullable"
+    diff_cases = 2
+
+    def instantiations(self, tier):
+        return [{"T": "i64", "nat": "merge_keep_nullable_i64"}]
+
+    def shapes(self, tier, inst):
+        import itertools
+        out = []
+        lens = (0, 1, 2, 3) if tier == "quick" else (0, 1, 2, 3, 4, 9)
+        for k in lens:
+            if k <= 4:
+                for ops in itertools.product((0, 1), repeat=k):
+                    out.append(ops)
+            else:
+                out += [tuple([1, 0] * 4 + [1]), tuple([0] * 8 + [1]), tuple([1] * 8 + [0])]
+        return out
+
+    def sym_inputs(self, inst, shape):
+        a = sum(1 for o in shape if o == 1)
+        b = len(shape) - a
+        nb = lambda n: (n + 7) // 8
+        # null maps may be shorter than the data (trailing rows absent = NULL): lengths 0..ceil(n/8)
+        return {"l": [sym("i64", f"l{i}") for i in range(a)], "r": [sym("i64", f"r{i}") for i in range(b)],
+                "lp": [sym("u8", f"lp{i}") for i in range(nb(a))], "rp": [sym("u8", f"rp{i}") for i in range(nb(b))]}, []
+
+    def make_args(self, inst, shape, inp):
+        return [slice_arg([I("u8", o) for o in shape]), slice_arg(inp["l"]), slice_arg(inp["r"]), slice_arg(inp["lp"]), slice_arg(inp["rp"])]
+
+    @staticmethod
+    def bit(bm, i):
+        if i // 8 >= len(bm):
+            return B(False)
+        return binop("Ne", binop("BitAnd", bm[i // 8], I("u8", 1 << (i % 8))), I("u8", 0))
+
+    def post(self, inst, shape, inp, value, state=None):
+        out = elems_of(value.fields[0])
+        pres = elems_of(value.fields[1])
+        conds = [("one output per op", B(len(out) == len(shape)))]
+        if len(out) != len(shape):
+            return conds
+        a = b = 0
+        for k, o in enumerate(shape):
+            if o == 1:
+                src_v, src_p = inp["l"][a], self.bit(inp["lp"], a)
+                a += 1
+            else:
+                src_v, src_p = inp["r"][b], self.bit(inp["rp"], b)
+                b += 1
+            conds.append((f"out[{k}] carries the source value", binop("Eq", out[k], src_v)))
+            conds.append((f"NULL bit of out[{k}] equals the source row's", binop("Eq", self.bit(pres, k), src_p)))
+        return conds
+
+    def random_inputs(self, rng, inst, shape):
+        if rng.random() < 0.7 and len(shape) > 1:
+            return None
+        a = sum(1 for o in shape if o == 1)
+        b = len(shape) - a
+        nb = lambda n: (n + 7) // 8
+        return {"l": [I("i64", rnd_int(rng, "i64")) for _ in range(a)], "r": [I("i64", rnd_int(rng, "i64")) for _ in range(b)],
+                "lp": [I("u8", rng.randint(0, 255)) for _ in range(nb(a))], "rp": [I("u8", rng.randint(0, 255)) for _ in range(nb(b))]}
+
+    def native(self, inst, shape, inp):
+        if inp is None:
+            return (inst["nat"], [])
+        return (inst["nat"], ["[" + ",".join(str(o) for o in shape) + "]", fmt_ints(inp["l"]), fmt_ints(inp["r"]), fmt_ints(inp["lp"]), fmt_ints(inp["rp"])])
+
+    def parse_native(self, inst, shape, toks):
+        return Agg("tuple", [VecObj(parse_ints(toks[0], "i64")), VecObj(parse_ints(toks[1], "u8"))])
